@@ -3311,7 +3311,10 @@ func (bc *Blockchain) GetTestHistoricVM(t trigger.Type, tx *transaction.Transact
 		if b.Index+bc.GetMaxTraceableBlocks() < bc.BlockHeight() {
 			return nil, fmt.Errorf("state for height %d is outdated and removed from the storage", b.Index)
 		}
-		mode |= mpt.ModeGCFlag
+		// Nodes are stored with reference counters in this mode. The GC flag
+		// must not be set: nodes that left the latest trie after the requested
+		// height are marked inactive, but they still belong to this state.
+		mode |= mpt.ModeLatest
 	}
 	if b.Index < 1 || b.Index > bc.BlockHeight()+1 {
 		return nil, fmt.Errorf("unsupported historic chain's height: requested state for %d, chain height %d", b.Index, bc.blockHeight)
